@@ -89,18 +89,41 @@ class State(object):
         self.gmap = {}         # global linked name -> rid
         self.live_heap = set()
         self.notes = []
+        self.owned = set([0])        # region ids whose Region object is private to this state (copy-on-write)
+        self.side_owned = set()      # side-table keys whose model object is private to this state
 
-    def clone(self):
-        s = State()
-        s.regions = {}
-        for k, r in self.regions.items():
+    def mut(self, rid):
+        """Region object that may be mutated (copy-on-write across clones)"""
+        r = self.regions[rid]
+        if rid not in self.owned:
             n = Region(r.rid, r.kind, r.size, r.name)
             n.alive = r.alive
             n.data = r.data
             n.fresh = r.fresh
-            s.regions[k] = n
+            self.regions[rid] = n
+            self.owned.add(rid)
+            return n
+        return r
+
+    def side_mut(self, key):
+        v = self.side[key]
+        if key not in self.side_owned:
+            v = v.clone()
+            self.side[key] = v
+            self.side_owned.add(key)
+        return v
+
+    def side_set(self, key, v):
+        self.side[key] = v
+        self.side_owned.add(key)
+
+    def clone(self):
+        s = State()
+        s.regions = dict(self.regions)
+        s.owned = set()
         s.mem = dict(self.mem)
-        s.side = {k: v.clone() for k, v in self.side.items()}
+        s.side = dict(self.side)
+        s.side_owned = set()
         s.events = list(self.events)
         s.pc = list(self.pc)
         s.next_rid = self.next_rid
@@ -113,6 +136,7 @@ class State(object):
     def new_region(self, kind, size, name=None):
         r = Region(self.next_rid, kind, size, name)
         self.regions[r.rid] = r
+        self.owned.add(r.rid)
         self.next_rid += 1
         if kind == 'heap':
             self.live_heap.add(r.rid)
@@ -402,9 +426,19 @@ class Ex(object):
         imp = self._implied(cond)
         if imp is not None:
             return imp
+        g = self._ground(cond)
+        if g is not None:
+            return g
         if cond.op == 'undef' or any(x.op == 'undef' for x in cond.a):
             if self.uninit_events:
                 st.event('uninit-use', 'branch', self.cur_fn)
+        lg = getattr(self, 'loop_guard', None)
+        if lg:
+            fr_, bi_, fname_ = lg
+            k = fr_.visits.get(('fork', bi_), 0) + 1
+            fr_.visits[('fork', bi_)] = k
+            if k > self.max_visits:
+                raise UnwindBound('unwinding bound %d (symbolic decisions at one branch of one activation) reached in %s' % (self.max_visits, fname_))
         n = len(self.decisions)
         if n < len(self.schedule):
             b = self.schedule[n]
@@ -414,6 +448,25 @@ class Ex(object):
         self.decisions.append(b)
         st.pc.append((cond, b))
         return b
+
+    def _ground(self, cond):
+        """ground comparison (only constants, PI and libm atoms of those): decided by 50-digit evaluation,
+        refused when the two sides are closer than 1e-30 (then the branch stays symbolic)"""
+        if cond.op not in ('lt', 'le', 'eq'):
+            return None
+        for t in tm.topo([cond]):
+            if t.op in ('undef', 'uf') or (t.op == 'sym' and t.p != 'PI'):
+                return None
+        import mpmath
+        mp = mpmath.mp.clone()
+        mp.dps = 50
+        try:
+            a, b = tm.evalf(list(cond.a), {}, mp)
+        except Exception:
+            return None
+        if abs(a - b) < mp.mpf('1e-30'):
+            return None
+        return bool(a < b) if cond.op in ('lt', 'le') else False
 
     def _implied(self, cond):
         """cheap syntactic implication from the path condition (integer equalities / orderings with constants)"""
@@ -472,7 +525,7 @@ class Ex(object):
             self.depth -= 1
             self.cur_fn, self.cur_mod = saved
             for rid in fr.allocas:
-                self.st.regions[rid].alive = False
+                self.st.mut(rid).alive = False
 
     def _run(self, fr):
         f = fr.f
@@ -511,9 +564,11 @@ class Ex(object):
                     if 'cond' in ins:
                         c = self.operand(ins['cond'], mod, 'i1', fr)
                         if isinstance(c, T):
-                            if fr.visits[bi] > self.max_visits:
-                                raise UnwindBound('unwinding bound %d reached in %s' % (self.max_visits, f['name']))
-                            c = self.decide(self.as_bool(c))
+                            self.loop_guard = (fr, bi, f['name'])
+                            try:
+                                c = self.decide(self.as_bool(c))
+                            finally:
+                                self.loop_guard = None
                         nb = ins['t1'] if c else ins['t0']
                     else:
                         nb = ins['dest']
@@ -891,6 +946,7 @@ class Ex(object):
             self.decisions = []
             self.pending = []
             self.depth = 0
+            self.steps = 0
             res = dict(ret=None, terminal=None, error=None)
             try:
                 res['ret'] = thunk(self)
